@@ -513,6 +513,14 @@ package fzf
 //@ ghost @"buf = buf[i+1:]" ncut = ncut + len(leftover) + len(slice)
 //@ ghost @"r.pusher(leftover)" ncut = ncut + len(leftover)
 //@ ensures nread == ncut
+// Record accounting: ndel = delimiters found, npush = records handed over by the scanning loop.  Every
+// delimiter-terminated record is handed over - the empty ones too, and whatever Read reported along with the data.
+//@ ghost ndel int
+//@ ghost nlast int
+//@ ghost calls_pusher int -- counted by the verifier at every call through r.pusher
+//@ ghost @"buf = buf[i+1:]" ndel = ndel + 1
+//@ ghost @"if len(leftover) > 0 && r.pusher(leftover)" nlast = (len(leftover) > 0 ? 1 : 0)
+//@ ensures calls_pusher == ndel + nlast
 // ... and a record handed over never contains the record delimiter (records are cut at every delimiter)
 //@ effect call r.pusher requires forall(k, 0, len(arg0), arg0[k] != delim) sets own(arg0)
 //@ loop 1
@@ -520,18 +528,21 @@ package fzf
 //@   invariant unowned(leftover, len(leftover), cap(leftover)) && fresh(leftover) && !sameArray(leftover, slab)
 //@   invariant forall(k, 0, len(leftover), leftover[k] != delim)
 //@   invariant nread == ncut + len(leftover)
+//@   invariant calls_pusher == ndel && nlast == 0
 //@ loop 2
 //@   invariant 0 <= i && 0 <= n && n <= len(scope) && sameArray(scope, slab) && scope.off == slab.off && len(scope) <= len(slab)
 //@   invariant fresh(slab) && len(slab) >= 1 && len(slab) <= 131072 && unowned(slab, 0, cap(slab))
 //@   invariant unowned(leftover, len(leftover), cap(leftover)) && fresh(leftover) && !sameArray(leftover, slab)
 //@   invariant forall(k, 0, len(leftover), leftover[k] != delim)
 //@   invariant nread == ncut + len(leftover)
+//@   invariant calls_pusher == ndel && nlast == 0
 //@ loop 3
 //@   invariant fresh(slab) && unowned(slab, 0, cap(slab)) && len(slab) <= 131072
 //@   invariant sameArray(buf, slab) && buf.off + len(buf) == slab.off
 //@   invariant unowned(leftover, len(leftover), cap(leftover)) && fresh(leftover) && !sameArray(leftover, slab)
 //@   invariant forall(k, 0, len(leftover), leftover[k] != delim)
 //@   invariant nread == ncut + len(leftover) + len(buf)
+//@   invariant calls_pusher == ndel && nlast == 0
 
 // ---------------------------------------------------------------- chunk list
 //@ func Chunk.IsFull
